@@ -46,8 +46,8 @@ struct Obs {           // everything observed in one run
     int ret; bool parsedOk; long depthAtStart, depthAtEnd, maxDepth; bool ctxOkAtEnd;
     int64_t finalProbe; bool slotLeftovers;
     Str console; Vec<SimFile> files; uint64_t writesAfterClose, badHandle;
-    Str finalReport;
-    Obs() : ret(0), parsedOk(true), depthAtStart(0), depthAtEnd(0), maxDepth(0), ctxOkAtEnd(true), finalProbe(0), slotLeftovers(false), writesAfterClose(0), badHandle(0) {}
+    Str finalReport; int pluginCount, pluginCountExpected; int removedStillFound;
+    Obs() : ret(0), parsedOk(true), depthAtStart(0), depthAtEnd(0), maxDepth(0), ctxOkAtEnd(true), finalProbe(0), slotLeftovers(false), pluginCount(0), pluginCountExpected(0), removedStillFound(0), writesAfterClose(0), badHandle(0) {}
 };
 
 struct Config {        // derived from Desc.p
